@@ -22,6 +22,9 @@ type TConfig struct {
 	PermTimeoutS   int   `json:"perm_timeout_s"`
 	Clients        []int `json:"clients"`
 	Deny           []int `json:"deny"`
+	// LibStatic: the relay transport comes from the library's RelayAddressGeneratorStatic bound to
+	// the wildcard address (Address "0.0.0.0") while RelayAddress is what is advertised
+	LibStatic bool `json:"lib_static,omitempty"`
 }
 
 // TStep is one scripted action in the TCP world.
@@ -172,6 +175,15 @@ func newTWorld(cfg TConfig) (*TWorld, error) {
 	// the generator only needs cfg.GenFailAt and the net from a World
 	shim := &World{net: w.net}
 	w.gen = &simGen{w: shim}
+	if cfg.LibStatic {
+		// relay listeners and outgoing connections from the library's static generator, bound to the
+		// wildcard address while another address is advertised (the NAT / multi-homed set-up)
+		inner := &turn.RelayAddressGeneratorStatic{RelayAddress: RelayIP4, Address: "0.0.0.0", Net: &sim.TNet{N: w.net}}
+		if verr := inner.Validate(); verr != nil {
+			return nil, verr
+		}
+		w.gen.inner, w.gen.innerTCP = inner, true
+	}
 	w.net.SetOwnerTag("server-listener")
 	l, err := w.net.ListenTCPAt("tcp4", ServerIP4, ServerPort)
 	if err != nil {
